@@ -863,6 +863,19 @@ func Apply(ctx context.Context, repo gitstore.Storer, signRSLEntry bool) error {
 		return fmt.Errorf("staged policy is invalid: %w", err)
 	}
 
+	if !policyTip.IsZero() {
+		// The staged state must be one that verification will accept as the
+		// successor of the current policy: its root must be signed by the
+		// current root principals and no metadata may be rolled back.
+		currentState, err := LoadCurrentState(ctx, repo, PolicyRef)
+		if err != nil {
+			return fmt.Errorf("failed to load current policy state: %w", err)
+		}
+		if err := currentState.VerifyNewState(ctx, state); err != nil {
+			return fmt.Errorf("staged policy cannot succeed current policy: %w", err)
+		}
+	}
+
 	// Update the reference for the base to point to the new commit
 	if err := repo.SetReference(PolicyRef, policyStagingTip); err != nil {
 		return fmt.Errorf("failed to set new policy reference: %w", err)
